@@ -231,7 +231,9 @@ func runSeq(c *fw.Ctx, engine string, setup, ops []bt.Op, checkAll bool) (mismat
 
 func replaySeq(c *fw.Ctx, id string, sc seqCase, tag func(*bt.Op) string) (string, string) {
 	runSeqNoState = sc.ReadsOnly
-	m, cl, at, _ := runSeq(c, sc.Engine, sc.Setup, sc.Ops, true)
+	// a read-only batch case is about its LAST request: the earlier reads are only sent (each was judged, and reported
+	// under its own signature if it failed, when it was the last request of a shorter case)
+	m, cl, at, _ := runSeq(c, sc.Engine, sc.Setup, sc.Ops, !sc.ReadsOnly)
 	runSeqNoState = false
 	if m == "" {
 		return "", ""
